@@ -217,6 +217,26 @@ add("C18",
     "Normalised entries only where the divisor is defined; label-permuting clause uses distinct "
     "scores and normalize None/by_overall; utils.bootstrap_ci is the CI formula (C13's subject).")
 
+add("C19",
+    "property-based testing: Hypothesis-generated genuine/fraud arrays; differential oracle "
+    "against a plain Scores object, two-directional validation oracle (raises iff out of [0,1])",
+    "Exploration: construction raises ValueError exactly when a generated score lies outside "
+    "[0,1] (boundary values 0, 1, -0.0, 1+ulp, -1e-300 over-represented); otherwise every query "
+    "equals the same query on the equivalent Scores object exactly, aliases/setters/from_labels "
+    "and the label translations behave as stated.",
+    "The underlying Scores semantics are C01-C09's subject; warnings about score_class are silenced.")
+
+add("C20",
+    "property-based testing: Hypothesis-generated model parameters; round-trip (inverse) oracles, "
+    "exact rational floor reference for counts, harness-computed joint distribution validity",
+    "Exploration: analytic FNR/FPR and threshold functions are mutually inverse to 1e-9, roc() is "
+    "consistent with the model, from_metrics hits the requested rates and implied sizes, samples "
+    "have the right size/direction and are reproducible; Bernoulli counts equal floor(n*p) by "
+    "exact rationals; the correlated pair raises exactly for invalid joint distributions and "
+    "reproduces both marginals within 3 draws.",
+    "scipy.stats.norm is used by the code under test only; the oracle needs no normal reference "
+    "(round trips). Joint probabilities within 1e-12 of 0 may go either way.")
+
 NOT_YET = {}
 
 
